@@ -168,6 +168,15 @@ func condShape(e edgeCond) string {
 				if cal := c.Common().StaticCallee(); cal != nil && strings.HasSuffix(cal.String(), "badger.Txn).Get") {
 					return "Txn.Get"
 				}
+				// the raw value read by a helper that falls back to the handler's default bytes: testing
+				// it for nil on the not-found path is the "no default" test
+				if cal := c.Common().StaticCallee(); cal != nil && len(cal.Blocks) > 0 && isByteSlice(v.Type()) {
+					for _, lf := range valueLeaves(v, nil, 0) {
+						if _, ok := core.LoadedField(lf.V); ok && isByteSlice(lf.V.Type()) {
+							return "default"
+						}
+					}
+				}
 			}
 		}
 		// role label: the apply handler's index parameter, whatever it is called
@@ -380,6 +389,42 @@ func c20(r *core.Run) {
 						if ia, ok := st.Addr.(*ssa.IndexAddr); ok {
 							if f, ok := core.LoadedField(ia.X); ok && isByteSlice(ia.X.Type()) && strings.HasSuffix(f.Struct, mp.typ) {
 								r.Bad("I1", core.FuncName(fn), "no-element-store-into-"+f.String(), p.InstrPos(st), "an element of the handler's byte field is overwritten")
+							}
+						}
+					}
+				}
+			}
+			// a slice that may be (a re-slice of) a field of the handler - the shared default in any
+			// decoded form - is not written through: no element store, no copy into it, and no append
+			// onto it (append writes into the spare capacity of the shared backing array)
+			holds := func(v ssa.Value) (bool, string) {
+				if _, isSl := v.Type().Underlying().(*types.Slice); !isSl {
+					return false, ""
+				}
+				ok, why := mayHoldField(v, 0)
+				return ok && strings.Contains(why, mp.typ+"."), why
+			}
+			for _, b := range fn.Blocks {
+				for _, in := range b.Instrs {
+					switch x := in.(type) {
+					case *ssa.Store:
+						if ia, ok := x.Addr.(*ssa.IndexAddr); ok {
+							if _, direct := core.LoadedField(ia.X); direct && isByteSlice(ia.X.Type()) {
+								continue // reported above
+							}
+							if ok, why := holds(ia.X); ok {
+								r.Bad("I1", core.FuncName(fn), "no-element-store-into-a-handler-slice", p.InstrPos(x), "an element is stored into "+why+": the handler's default is shared by every resource that is not stored yet, which is afterwards served and folded from another resource's data")
+							}
+						}
+					case *ssa.Call:
+						switch core.CalleeName(x) {
+						case "builtin:copy":
+							if ok, why := holds(x.Common().Args[0]); ok {
+								r.Bad("I1", core.FuncName(fn), "no-copy-into-a-handler-slice", p.InstrPos(x), "copy writes into "+why+": the shared default is overwritten in place")
+							}
+						case "builtin:append":
+							if ok, why := holds(x.Common().Args[0]); ok {
+								r.Bad("I1", core.FuncName(fn), "no-append-onto-a-handler-slice", p.InstrPos(x), "append extends "+why+": when the shared slice has spare capacity the new element (and every later in-place shift) lands in the default's own backing array, so the next not-yet-stored resource is folded over a corrupted default")
 							}
 						}
 					}
